@@ -46,10 +46,15 @@ class Ctx:
         return self.st.locals[name]
 
     def path(self, p):
-        parts = p.split('.')
-        v = self.st.locals[parts[0]]
-        for f in parts[1:]:
-            v = self.st.heap[v.id][f]
+        """'self._gfx._data' or 'pixel_row[3]' -> the value (usually a Ref) at that access path."""
+        import re
+        toks = re.findall(r'[A-Za-z_][A-Za-z_0-9]*|\[\d+\]', p)
+        v = self.st.locals[toks[0]]
+        for f in toks[1:]:
+            if f.startswith('['):
+                v = self.st.heap[v.id].get(int(f[1:-1]))
+            else:
+                v = self.st.heap[v.id][f]
         return v
 
     def get(self, p):
@@ -145,8 +150,7 @@ def exec_for(ex, s, st):
     try:
         items, n, item = iteration_space(ex, s, work)
     except NeedFork as nf:
-        del ex.obls[nobl:]
-        ex._obn = nkeys
+        ex.rollback(nobl, nkeys)
         outs = []
         for cond in (nf.cond, z3.Not(nf.cond)):
             s2 = st.copy()
@@ -206,6 +210,12 @@ def cut_loop(ex, s, st, spec, ordn, n, item, is_while=False):
     mod_refs = [Ctx(ex, entry).path(p) for p in spec.modifies]
     mod_ids = {r.id for r in mod_refs}
     iter_cell = entry.locals.get('__iter_cell__%d' % s.lineno)
+    if spec.defs:
+        # cells named by a definition are written by the loop
+        for name in spec.defs(Ctx(ex, entry, entry), None if is_while else 0):
+            r = Ctx(ex, entry).path(name) if ('.' in name or '[' in name) else entry.locals.get(name)
+            if isinstance(r, Ref) and not isinstance(entry.heap[r.id], dict):
+                mod_ids.add(r.id)
 
     def defs_at(state, k):
         return spec.defs(Ctx(ex, state, entry), k) if spec.defs else {}
@@ -214,7 +224,7 @@ def cut_loop(ex, s, st, spec, ordn, n, item, is_while=False):
         """Obligations: defs and inv hold in `state` for iteration count k."""
         c = Ctx(ex, state, entry)
         for name, want in defs_at(state, k).items():
-            have = c.get(name) if '.' in name else (c[name] if c.has(name) else None)
+            have = c.get(name) if ('.' in name or '[' in name) else (c[name] if c.has(name) else None)
             if have is None:
                 raise SymErr('invariant names undefined variable %s' % name)
             ex.oblige(state, ex.with_sink(state, s, lambda: val_eq(have, want)), '%s/%s.%s' % (tag, kind, name), s)
@@ -241,7 +251,7 @@ def cut_loop(ex, s, st, spec, ordn, n, item, is_while=False):
         # definitions are substituted (after havoc, so they may mention havocked names)
         d = defs_at(h, k)
         for name, val in d.items():
-            if '.' in name:
+            if '.' in name or '[' in name:
                 r = Ctx(ex, h).path(name)
                 h.heap[r.id] = SSeq.of(val).with_kind(h.heap[r.id].kind)
             else:
